@@ -382,7 +382,10 @@ impl<Leaf: MerkleLeaf, Root: MerkleRoot, Proof: MerkleProof> MerkleTree<Leaf, Ro
     /// to the given `hash` at the given `index` in the tree corresponding to the given `root`.
     #[must_use]
     fn check_hash_proof(hash: Hash, index: usize, root: &Root, proof: &Proof) -> bool {
+        // the index must be fully consumed by the proof, otherwise any
+        // `index + k * 2^len` would alias the leaf at `index`
         proof.as_ref().len() <= EMPTY_ROOTS.len()
+            && index >> proof.as_ref().len() == 0
             && *Self::derive_hash_root(hash, index, proof).as_hash() == *root.as_hash()
     }
 
@@ -431,7 +434,8 @@ impl<Leaf: MerkleLeaf, Root: MerkleRoot, Proof: MerkleProof> MerkleTree<Leaf, Ro
     ///
     /// Returns `None` if the proof is not well-formed, namely if either:
     /// - it is longer than the maximum supported tree height, or
-    /// - a right-sibling entry is not the canonical empty-subtree root.
+    /// - a right-sibling entry is not the canonical empty-subtree root, or
+    /// - the index lies beyond the width of the tree the proof describes.
     #[must_use]
     fn derive_hash_root_last(hash: Hash, index: usize, proof: &Proof) -> Option<Root> {
         if proof.as_ref().len() > EMPTY_ROOTS.len() {
@@ -446,6 +450,10 @@ impl<Leaf: MerkleLeaf, Root: MerkleRoot, Proof: MerkleProof> MerkleTree<Leaf, Ro
                 _ => Self::hash_pair(h, &node),
             };
             i /= 2;
+        }
+        // the index must be fully consumed by the proof (no aliasing of positions)
+        if i != 0 {
+            return None;
         }
         Some(node.into())
     }
